@@ -242,9 +242,11 @@ func (i *Index) AddDesc(d Descriptor, opts ...IndexOpt) {
 			if tag == "" && referrer == "" {
 				return
 			}
+			// an entry is only replaced when that does not lose its tag or referrer annotation,
+			// a digest that is both tagged and a referrers response is tracked with separate entries
 			if md.Annotations == nil ||
-				((tag == "" || md.Annotations[AnnotRefName] == "" || md.Annotations[AnnotRefName] == tag) &&
-					(referrer == "" || md.Annotations[AnnotReferrerSubject] == "" || md.Annotations[AnnotReferrerSubject] == referrer)) {
+				((md.Annotations[AnnotRefName] == "" || md.Annotations[AnnotRefName] == tag) &&
+					(md.Annotations[AnnotReferrerSubject] == "" || md.Annotations[AnnotReferrerSubject] == referrer)) {
 				i.Manifests[mi] = d
 				return
 			}
